@@ -36,7 +36,45 @@ func framingBound(inputLen int) uint64 {
 }
 
 type c22 struct {
-	c *mon.Ctx
+	c     *mon.Ctx
+	dirty dirtyBuf
+}
+
+// dirtyEncode repeats an Encode into reused dirty buffers (Reset() with spare
+// capacity; bin.Pool Get after a dirty Put). check decides on the bytes.
+func (m *c22) dirtyEncode(name string, i, need int, enc func(b *bin.Buffer) error, check func(got []byte) string) {
+	c := m.c
+	for _, variant := range []string{"reset", "pool"} {
+		if variant == "pool" && need > 8192 {
+			continue
+		}
+		var b *bin.Buffer
+		if variant == "reset" {
+			b = m.dirty.reset(need)
+		} else {
+			b = m.dirty.pooled(need)
+		}
+		c.Eval(1)
+		var err error
+		pv, stack := mon.Try(func() { err = enc(b) })
+		if pv != nil || err != nil {
+			c.Violate("encode|dirty-buffer-failed|"+name, map[string]any{"case": i, "variant": variant, "panic": fmt.Sprint(pv), "stack": stack, "err": fmt.Sprint(err)})
+			return
+		}
+		if why := check(b.Buf); why != "" {
+			c.Violate("encode|dirty-buffer-differs-from-reference|"+name, map[string]any{"case": i, "variant": variant, "why": why, "encoded_len": len(b.Buf), "encoded": hx(b.Buf)})
+		}
+		c.Add("dirty_buffer_encodes", 1)
+	}
+}
+
+func equalTo(want []byte) func([]byte) string {
+	return func(got []byte) string {
+		if bytes.Equal(got, want) {
+			return ""
+		}
+		return "bytes differ from the reference encoding " + hx(want)
+	}
 }
 
 func tailBytes() []byte { return []byte{0xdc, 0xf8, 0xf1, 0x73, 0xff, 0xff, 0xff, 0x7f, 1, 2, 3, 4} }
@@ -152,6 +190,7 @@ func (m *c22) roundTrips() {
 				w["left"] = rb.Len()
 				c.Violate("consumed-not-exactly-encoding|container", w)
 			}
+			m.dirtyEncode("container", i, len(want), real.Encode, equalTo(want))
 			if len(msgs) > 0 {
 				c.Distinct(fmt.Sprintf("rt/container/n=%s/bytes=%s", sizeClass(len(msgs)), sizeClass(total)))
 			}
@@ -187,6 +226,7 @@ func (m *c22) roundTrips() {
 			case !bytes.Equal(rb.Buf, tail):
 				c.Violate("consumed-not-exactly-encoding|message", w)
 			}
+			m.dirtyEncode("message", i, 16+len(x.Body), real.Encode, equalTo(refmodel.FrPutMessage(nil, x)))
 			c.Distinct(fmt.Sprintf("rt/message/bytes=%s/mod4=%d", sizeClass(len(x.Body)), len(x.Body)%4))
 		case 2: // rpc_result, fresh and reused receiver
 			id, body := randInt64(r), m.randBody(r, i)
@@ -221,6 +261,7 @@ func (m *c22) roundTrips() {
 			case rb1.Len() != 0 || rb2.Len() != 0:
 				c.Violate("under-consumed|rpc-result", w)
 			}
+			m.dirtyEncode("rpc-result", i, 12+len(body), real.Encode, equalTo(refmodel.FrPutResult(nil, id, body)))
 			c.Distinct(fmt.Sprintf("rt/rpc-result/bytes=%s", sizeClass(len(body))))
 		case 3: // unencrypted message
 			id, body := randInt64(r), m.randBody(r, i)
@@ -255,6 +296,7 @@ func (m *c22) roundTrips() {
 			case !bytes.Equal(rb1.Buf, tail) || !bytes.Equal(rb2.Buf, tail):
 				c.Violate("consumed-not-exactly-encoding|unencrypted", w)
 			}
+			m.dirtyEncode("unencrypted", i, 20+len(body), real.Encode, equalTo(refmodel.FrPutUnencrypted(nil, id, body)))
 			c.Distinct(fmt.Sprintf("rt/unencrypted/bytes=%s", sizeClass(len(body))))
 		case 4: // gzip_packed, small payloads (the large ones run in the child)
 			kinds := []string{"random", "mixed", "text", "zeros"}
@@ -302,6 +344,20 @@ func (m *c22) roundTrips() {
 					c.Violate("gzip-encoding-unreadable-by-reference", w)
 				}
 			}
+			// gzip_packed carries a TL string: its padding must be zero bytes also in a reused buffer
+			m.dirtyEncode("gzip", i, b.Len(), (proto.GZIP{Data: data}).Encode, func(got []byte) string {
+				if len(got)%4 != 0 {
+					return "length not a multiple of 4"
+				}
+				out, why := stdGunzipPacked(got)
+				if why != "" {
+					return "reference reader: " + why
+				}
+				if !bytes.Equal(out, data) {
+					return "reference reader decompressed different data"
+				}
+				return ""
+			})
 			c.Distinct(fmt.Sprintf("rt/gzip/%s/%s", kind, sizeClass(size)))
 		}
 	}
@@ -830,7 +886,7 @@ func sizeClassGz(n int) string {
 }
 
 func runC22(c *mon.Ctx) {
-	c.Rule("Round trips (real Encode, byte-compared with a spec-transcribed reference encoder, real Decode with a sentinel tail): containers of 0..1000 messages with random ids/seqnos and unique bodies 0..1 MiB (incl. exactly 1 MiB), " +
+	c.Rule("Round trips (real Encode into a fresh buffer AND into reused dirty buffers — non-zero backing array after Reset(), bin.Pool Get after a dirty Put — byte-compared with a spec-transcribed reference encoder, real Decode with a sentinel tail): containers of 0..1000 messages with random ids/seqnos and unique bodies 0..1 MiB (incl. exactly 1 MiB), " +
 		"single messages, rpc_result and unencrypted messages (fresh and reused receivers), gzip_packed of random/mixed/text/zero payloads by the real encoder (read back by compress/gzip) and by compress/gzip (read by the real decoder). " +
 		"Child batches (single goroutine, allocation meter around every Decode, crash classification): gzip payloads of 10 MiB-1 / 10 MiB / 10 MiB+1 (zeros, random, mixed; both encoders), bombs of 11 MiB..100 MiB (1 GiB thorough) of zeros, " +
 		"concatenated members, truncated streams, corrupt CRC/ISIZE/magic/method, trailing garbage, bit flips, truncated TL object, every damaged or bomb case followed by a valid small object in the same process (pooled reader reuse); " +
@@ -842,6 +898,10 @@ func runC22(c *mon.Ctx) {
 	c.Assume("a payload of exactly 10 MiB may be accepted or rejected (statement: never MORE than 10 MiB); a bit flip inside a gzip stream may be accepted when the data is intact")
 	m := &c22{c: c}
 	m.roundTrips()
+	c.Set("dirty_pool_reuse", fmt.Sprintf("%d of %d bin.Pool Get calls returned the dirty buffer just Put", m.dirty.PoolReused, m.dirty.PoolGets))
+	if m.dirty.PoolReused == 0 {
+		c.Inconclusive("bin.Pool never handed back the dirty buffer: pooled-reuse arm not observed")
+	}
 	m.runHostileFraming()
 	m.runGzip()
 	if c.DistinctCount() < 40 {
